@@ -267,7 +267,11 @@ func (g *egen) literalFor(op xgen.Op, val *univ.Node) *xgen.Lit {
 				s += string(rune(it.U))
 			}
 		}
-		switch g.r.Intn(6) {
+		switch g.r.Intn(8) {
+		case 6: // inline flags, quoting
+			return mk([]string{"(?i)^" + regexp.QuoteMeta(strings.ToUpper(s)) + "$", "(?i)^abc$", "(?s)^.*$", "(?m)^a", "(?U)a+", `\Qa.b`, "(?i:A)", "(?-i)a", "(?i)" + regexp.QuoteMeta(s)}[g.r.Intn(9)])
+		case 7:
+			return mk([]string{"^abc$", "^def$", "b", "^$", "a|b", "[[:upper:]]", `\x61`, `\pL+`}[g.r.Intn(8)])
 		case 0:
 			return mk("(") // bad pattern
 		case 1:
